@@ -238,10 +238,14 @@ impl Registry {
         sdl
     }
 
+    /// `skip_federation_fields`: leave out `_service` and `_entities`, the
+    /// fields the framework adds to the query root (only the query root of a
+    /// federation export does this)
     fn export_fields<'a, I: Iterator<Item = &'a MetaField>>(
         sdl: &mut String,
         it: I,
         options: &SDLExportOptions,
+        skip_federation_fields: bool,
     ) {
         let mut fields = it.collect::<Vec<_>>();
 
@@ -251,7 +255,7 @@ impl Registry {
 
         for field in fields {
             if field.name.starts_with("__")
-                || (options.federation && matches!(&*field.name, "_service" | "_entities"))
+                || (skip_federation_fields && matches!(&*field.name, "_service" | "_entities"))
             {
                 continue;
             }
@@ -488,7 +492,12 @@ impl Registry {
                 }
 
                 writeln!(sdl, " {{").ok();
-                Self::export_fields(sdl, fields.values(), options);
+                Self::export_fields(
+                    sdl,
+                    fields.values(),
+                    options,
+                    options.federation && name.as_str() == self.query_type,
+                );
                 writeln!(sdl, "}}\n").ok();
             }
             MetaType::Interface {
@@ -540,7 +549,7 @@ impl Registry {
                 }
 
                 writeln!(sdl, " {{").ok();
-                Self::export_fields(sdl, fields.values(), options);
+                Self::export_fields(sdl, fields.values(), options, false);
                 writeln!(sdl, "}}\n").ok();
             }
             MetaType::Enum {
